@@ -98,10 +98,25 @@ def splitBy {β : Type} : List Nat → List β → List (List β)
   | [], _ => []
   | s :: rest, l => l.take s :: splitBy rest (l.drop s)
 
-/-- one distribution pass: bucket `b` receives, in input order, the elements with key `b`
-(count, prefix sum, `*(bkt_index[key]++) = std::move(ss[i])`) -/
+/-- what one distribution pass computes: bucket `b` receives, in input order, the elements with
+key `b`.  (Specification of `scatterBuckets` below, see `scatterBuckets_eq`.) -/
 def buckets {α : Type} (R : Nat) (key : α → Nat) (ss : List α) : Array (List α) :=
   ss.foldr (fun x acc => acc.modify (key x) (x :: ·)) (Array.replicate R [])
+
+/-- the out-of-place distribution of RadixStep_CE0 / CE2 / CE3 (radix_sort.hpp:61-74), literally:
+count the keys, `bkt_index[0] = shadow.begin(); bkt_index[i] = bkt_index[i-1] + bkt_size[i-1]`,
+then `*(bkt_index[key]++) = std::move(ss[i])` into the shadow array (whose old contents are
+arbitrary — here a copy of the input).  Returns the shadow array and `bkt_size`. -/
+def scatter {α : Type} (R : Nat) (key : α → Nat) (ss : List α) : Array α × Array Nat :=
+  let sizes := ss.foldl (fun acc x => acc.modify (key x) (· + 1)) (Array.replicate R 0)
+  let idx := (sizes.toList.foldl (fun (st : List Nat × Nat) s => (st.2 :: st.1, st.2 + s)) ([], 0)).1.reverse.toArray
+  let st := ss.foldl (fun (st : Array α × Array Nat) x =>
+      (st.1.setIfInBounds (st.2.getD (key x) 0) x, st.2.modify (key x) (· + 1))) (ss.toArray, idx)
+  (st.1, sizes)
+
+/-- the buckets of a step as sub-ranges of the shadow array (`strptr.flip(pos, bkt_size)`) -/
+def scatterBuckets {α : Type} (R : Nat) (key : α → Nat) (ss : List α) : List (List α) :=
+  splitBy (scatter R key ss).2.toList (scatter R key ss).1.toList
 
 /-- `size_t` subtraction (wraps around) -/
 def wsub (a b : Nat) : Nat := (a + 2 ^ 64 - b % 2 ^ 64) % 2 ^ 64
